@@ -152,6 +152,29 @@ def gen_mixed(rng, k, stream, gene, genomes, yaml_text=None, cn_list=None):
                 c = int(d * rng.choice([0, 1, 2, 3]) * rng.uniform(0.8, 1.2))
                 tab.setdefault(pos, []).insert(rng.randint(0, len(tab.get(pos, []))),
                                                ["_", to_runs(cell_obs(rng, c, rng.choice([0, 1, 4]), minq, minm))])
+        prof_thr = None
+        if rng.random() < 0.35:
+            # sites on the edge of the single-copy fraction threshold: a catalogued variant whose share of ALL qualifying reads of the
+            # site is just below (or exactly at) threshold / (copies + 0.5), next to stray single good reads of other bases - the share
+            # is taken of the whole site, whatever the noise cut-off removes first
+            prof_thr = rng.choice(["0.5", "0.5", "0.35", "0.8"])
+            t = F(prof_thr) / (F(len(cn)) + F(1, 2))
+            for (pos, op) in rng.sample(order, min(len(order), rng.choice([1, 2, 3]))):
+                if op.startswith("ins") or op.startswith("del") or len(op) != 3:
+                    continue
+                n = rng.randint(15, 40)
+                v = -(-(t * n).numerator // (t * n).denominator)           # least count with v / n >= t
+                strays = [o for o in ("A>C", "A>G", "A>T", "C>A", "C>G", "C>T", "G>A", "G>C", "G>T", "T>A", "T>C", "T>G")
+                          if o[0] == op[0] and o != op and (pos, o) not in sites]
+                k = 0
+                while F(v, n + k) >= t and k < len(strays):
+                    k += 1
+                if rng.random() < 0.3:
+                    k = max(0, k - 1)                                    # exactly at / just above the threshold
+                cells = [["_", to_runs(cell_obs(rng, n - v, rng.choice([0, 2]), minq, minm))], [op, to_runs(cell_obs(rng, v, 0, minq, minm))]]
+                cells += [[o, to_runs(cell_obs(rng, 1, 0, minq, minm))] for o in strays[:k]]
+                rng.shuffle(cells)
+                tab[pos] = [cl for cl in cells if cl[1]]
         table = [[p, [cl for cl in ops if cl[1]]] for p, ops in tab.items()]
         indels = None
         if rng.random() < 0.15:
@@ -163,6 +186,9 @@ def gen_mixed(rng, k, stream, gene, genomes, yaml_text=None, cn_list=None):
         if rng.random() < 0.25:
             prof["threshold"] = rng.choice(["0.2", "0.35", "0.5", "0.8"])
             prof["min_coverage"] = rng.choice(["1", "2", "5"])
+        if prof_thr is not None:
+            prof["threshold"] = prof_thr
+            prof["min_coverage"] = "2"          # a single stray read fails the noise cut-off
         other_ops = ["A>C", "T>G", "G>T", "delA", "insG"] + [op for _, op in sites] + ["_"]
         newpos = [p + dd for p, _ in sites for dd in (1, 2, -1)]
         t2, kinds = perturb(rng, table, minq, minm, other_ops, newpos)
